@@ -362,6 +362,8 @@ class _Builder:
     # -- statements
     def seq(self, stmts, dang):
         for s in stmts:
+            if isinstance(s, ast.Expr) and isinstance(s.value, ast.Constant) and isinstance(s.value.value, str):
+                continue  # docstrings / string comments do nothing
             dang = self.stmt(s, dang)
         return dang
 
